@@ -22,10 +22,10 @@ def run(ctx):
     thorough = ctx.tier == 'thorough'
     rb = os.path.join(C.LIFT, 'rbtree_model.c')
     L = C.lift(ctx, 'C28', os.path.join(H, 'wrap.cpp'), ROOTS, models=[rb], retype=RETYPE)
-    cfgs = [(['a', 'abc'], None, None, 0), (['ab', 'a'], None, None, 1), (['a', 'b'], 'a', None, 0), (['ab', 'ab'], None, None, 0),
-            (['a', 'ab'], 'ab', 'b', 0), (['ba', 'bb'], 'bc', None, 0), (['a', 'abc'], 'a', None, 1), (['b', 'abb'], None, None, 0),
-            (['ab', 'abc'], 'ab', 'ab', 0), (['a', 'ab', 'abc'], None, None, 0)]
+    cfgs = [(['a', 'abc'], None, None, 0), (['ab', 'a'], None, None, 1), (['a', 'b'], 'a', None, 0), (['ba', 'bb'], 'bc', None, 0)]
     if thorough:
+        cfgs += [(['ab', 'ab'], None, None, 0), (['a', 'ab'], 'ab', 'b', 0), (['a', 'abc'], 'a', None, 1), (['b', 'abb'], None, None, 0),
+                 (['ab', 'abc'], 'ab', 'ab', 0), (['a', 'ab', 'abc'], None, None, 0)]
         ks = ['a', 'b', 'aa', 'ab', 'ba', 'abc', 'aab']
         for k0, k1 in itertools.product(ks, ks):
             cfgs.append(([k0, k1], None, None, 0))
@@ -39,10 +39,12 @@ def run(ctx):
         nm = cfg_name(keys, rk, readd, af)
         if nm in seen: continue
         seen.add(nm)
-        qs.append(Query(nm.replace(' ', '_'), L, os.path.join(H, 'h_longest.c'), cfg_defs(keys, rk, readd, af), unwind=6, timeout=900 if thorough else 400,
+        qs.append(Query(nm.replace(' ', '_'), L, os.path.join(H, 'h_longest.c'), cfg_defs(keys, rk, readd, af), unwind=6, timeout=1800 if thorough else 500,
                         desc=nm + '; symbolic values, query bytes (all 256) and query length <= 3; getLongest/get/has/size vs linear scan, both representations'))
     qs.append(Query('destroy', L, os.path.join(H, 'h_longest.c'), cfg_defs(['ab', 'a'], 'ab', None, 0) + ['DESTROY'], unwind=6, timeout=600,
                     desc='as above plus destruction of the trie (no invalid free)'))
+    for q in qs:
+        q.witness_vectors = [{'kval': [5, 9, 3], 'qb': [97, 98, 100, 0], 'qlen': 3, 'rval': 4}, {'kval': [1, 2, 3], 'qb': [98, 97, 0, 0], 'qlen': 2, 'rval': 4}]
     for q in qs:
         # libstdc++'s red-black tree forms `header + 0` from a possibly-null node pointer: nullptr + 0 is well defined in C++,
         # CBMC's pointer-overflow check (a C rule) flags it; no sanitizer confirms it.  The check is off for this property.
